@@ -173,7 +173,10 @@ pub fn explore(ctx: &Ctx) {
             jobs.push((Site::new(lat, lon, 0.0, gmt), params_conv(m)));
         }
     }
-    ctx.alphabet("main", json!({"far_zone_sites": 4, "jobs_site_x_method": jobs.len(), "lats": lats, "zones": zs, "methods": "ANGLE6", "dates": all.len()}));
+    for (i, s) in off_lattice_sites(quick, 60.0).into_iter().enumerate() {
+        jobs.push((s, params_conv(ANGLE6[i % 6])));
+    }
+    ctx.alphabet("main", json!({"off_lattice_sites": off_lattice_sites(quick, 60.0), "far_zone_sites": 4, "jobs_site_x_method": jobs.len(), "lats": lats, "zones": zs, "methods": "ANGLE6", "dates": all.len()}));
     par_jobs(ctx, &jobs, |(site, p), l| {
         for &d in &all {
             judge(ctx, l, p, *site, d);
@@ -210,6 +213,26 @@ pub fn explore(ctx: &Ctx) {
     par_jobs(ctx, &jobs3, |(site, p), l| {
         for &d in &yd3 {
             judge(ctx, l, p, *site, d);
+        }
+    });
+    // the validity frontier in the angle, to the last bit: whatever IS reported must still sit at its angle
+    let fc = angle_frontier_cases(quick);
+    ctx.alphabet("angle_frontier", json!({"site_dates": fc.len(), "prayers": ["Fajr", "Isha"], "probes_per_frontier": "<= 64 bisection probes + 2 x 17 ulp neighbours + 12 geometric approaches", "exempt": "a reported time within 2 s of lower culmination (12 h from Dhuhr): its side of noon is undefined"}));
+    par_jobs(ctx, &fc, |(site, date), l| {
+        for which in [Prayer::Fajr, Prayer::Isha] {
+            let Some(ps) = angle_frontier(*site, *date, which) else { continue };
+            l.count("angle_frontiers_located", 1);
+            for p in &ps {
+                let r = pt(p, site.loc(), *date, None);
+                l.evals += 1;
+                if [Prayer::Fajr, Prayer::Isha, Prayer::Imsaak].iter().any(|k| off(&r, *k).map(|o| o.abs() >= 43198).unwrap_or(false)) {
+                    l.count("frontier_probe_at_lower_culmination_exempt", 1);
+                    continue;
+                }
+                if judge_result(ctx, l, p, *site, *date, &r) {
+                    l.nontrivial += 1;
+                }
+            }
         }
     });
     // chains
